@@ -159,12 +159,26 @@ func main() {
 	logSMT := flag.String("logsmt", "", "directory for SMT transcripts (debug)")
 	verbose := flag.Bool("v", false, "verbose")
 	noEvidence := flag.Bool("noevidence", false, "do not write evidence")
+	replayFile := flag.String("replay", "", "natively replay one counterexample record and print the native log")
 	boundsOv := flag.String("bounds", "", "override tier bounds, e.g. K=1,M=1 (debugging; evidence records the bounds actually used)")
 	flag.StringVar(&verifDir, "verif", "/verif", "verif dir")
 	flag.StringVar(&repoDir, "repo", "/repo", "goja source tree to check (default /repo; scratch worktrees for seeded changes)")
 	flag.Parse()
+	if *replayFile != "" {
+		raw, err := os.ReadFile(*replayFile)
+		if err != nil {
+			fatal("replay: %v", err)
+		}
+		var rec struct {
+			Property string `json:"property"`
+			Harness  string `json:"harness"`
+		}
+		json.Unmarshal(raw, &rec)
+		*prop = rec.Property
+		*only = rec.Harness
+	}
 	if *prop == "" {
-		fmt.Fprintln(os.Stderr, "usage: symgo -prop Cxx -tier quick|thorough")
+		fmt.Fprintln(os.Stderr, "usage: symgo -prop Cxx -tier quick|thorough | symgo -replay <record.json>")
 		os.Exit(2)
 	}
 	if *timeout == 0 {
@@ -255,6 +269,21 @@ func main() {
 		}
 	}
 
+	if *replayFile != "" {
+		abs, _ := filepath.Abs(*replayFile)
+		res := nativeReplay(sel, []string{abs})
+		logs, _ := filepath.Glob(filepath.Join(filepath.Dir(abs), "native_replay_*.log"))
+		for _, l := range logs {
+			b, _ := os.ReadFile(l)
+			os.Stdout.Write(b)
+		}
+		fmt.Printf("replay %s: %s\n", abs, res[abs])
+		if res[abs] == "confirmed" {
+			fmt.Printf("VIOLATION property=%s replay=%s\n", *prop, abs)
+			os.Exit(1)
+		}
+		os.Exit(0)
+	}
 	// ---- load /repo with the harness overlay
 	overlay, pkgsNeeded, harnessFiles := buildOverlay(sel, false)
 	cfg := &packages.Config{Mode: packages.LoadAllSyntax, Dir: repoDir, Overlay: overlay,
